@@ -301,7 +301,13 @@ def r7(F, rep):
         raise AnalysisBroken("C08-R7: contributions of the variable to its applied force not found")
 
 
+def r8(F, rep):
+    from .rules_c07 import r6 as remembered_force
+    remembered_force(F, rep, "C08-R8")
+
+
 def run(F, rep, tier):
+    r8(F, rep)
     r1(F, rep)
     r2(F, rep)
     r3(F, rep)
